@@ -145,14 +145,15 @@ GROUPS["hier"] = dict(
                    ["reg", "cleanup", 2, [["desp", 1], ["desp", 2], ["erem", 3, 1], ["rem", 2]], 0]]),
 )
 # reactors added with App::add_reactor (three closures of ONE type, registered at start-up) next to ordinary systems: C13 C01
-APP3 = [[["bc", 1]], [["bc", 1], ["eev", 1, 1]], [["res", 1], ["anyev", 1]]]
+APP3 = [[["bc", 1]], [["bc", 1], ["eev", 1, 1]], [["res", 1], ["anyev", 1]], [["eev", 2, 1]]]
 GROUPS["app"] = dict(
-    subst=dict(Bundles="B_One", InitOps="NoOps", AppRegs="App_Three"),
-    mc_quick=C(NSys=1, NEnt=1, OpNames={"bc", "eev", "res", "run"}, MaxOps=2, Budget=3, MaxSteps=2),
-    mc_thorough=C(NSys=2, NEnt=2, OpNames={"bc", "eev", "res", "run", "sysev"}, MaxOps=2, Budget=4, MaxSteps=2),
-    gen=C(NSys=2, NEnt=2, OpNames={"bc", "eev", "res", "run", "sysev", "reg", "probe"}, Modes={"persistent"}, MaxOps=3, Budget=8, MaxSteps=3),
-    rnd=dict(cfg=dict(kinds=["plain", "plain"], nonce=0, nent=2, app=APP3), alphabet=["bc", "eev", "res", "run", "sysev", "reg", "probe"],
-             trigs=["bc", "eev", "res", "anyev"], modes=["persistent"], max_ops=3, budget=10, steps=3, ntypes=1, p_gcpoll=10, init=[]),
+    subst=dict(Bundles="B_One", InitOps="NoOps", AppRegs="App_Four"),
+    mc_quick=C(NSys=1, NEnt=2, OpNames={"bc", "eev", "res", "run", "desp"}, MaxOps=2, Budget=3, MaxSteps=3, StepKinds={"ops", "gc"}),
+    mc_thorough=C(NSys=2, NEnt=2, OpNames={"bc", "eev", "res", "run", "sysev", "desp"}, MaxOps=2, Budget=4, MaxSteps=3, StepKinds={"ops", "gc"}),
+    gen=C(NSys=2, NEnt=2, OpNames={"bc", "eev", "res", "run", "sysev", "reg", "probe", "desp"}, Modes={"persistent"}, MaxOps=3, Budget=8, MaxSteps=4,
+          StepKinds={"ops", "gc", "clear"}),
+    rnd=dict(cfg=dict(kinds=["plain", "plain"], nonce=0, nent=2, app=APP3), alphabet=["bc", "eev", "res", "run", "sysev", "reg", "probe", "desp"],
+             trigs=["bc", "eev", "res", "anyev"], modes=["persistent"], max_ops=3, budget=10, steps=4, ntypes=1, p_gcpoll=25, init=[]),
 )
 # the entity world reactor triggering itself for several other entities in one run (postponed, replayed in order): C16 C12
 GROUPS["ewburst"] = dict(
@@ -206,7 +207,7 @@ ENUMS["treeev"] = dict(subst=dict(Bundles="B_One", InitOps="Init_Listen"), budge
 ENUMS["treecomp"] = dict(subst=dict(Bundles="B_One", InitOps="Init_Comp"), budget=dict(quick=3, thorough=4),
                          consts=C(NSys=2, NEnt=2, NVal=1, OpNames={"mut", "rm", "desp", "ins"}, MaxOps=2, BodyOps=2, Budget=3, MaxSteps=3, FinalStep="clear"))
 PROP_ENUMS = {
-    "C01": ["tabcomp", "tabev", "treeev"], "C06": ["tabcomp", "tabev"], "C07": ["tabev", "tabmix", "tabcomp"], "C15": ["tabev", "tabcomp", "tabdesp"],
+    "C01": ["tabcomp", "tabev", "treeev"], "C06": ["tabcomp", "tabev", "tabrem"], "C07": ["tabev", "tabmix", "tabcomp"], "C15": ["tabev", "tabcomp", "tabdesp"],
     "C11": ["tabdesp", "treeev"], "C12": ["treesys"], "C02": ["treesys"], "C09": ["treesys"], "C03": ["treeev"], "C04": ["treeev"], "C05": ["treeev"],
     "C16": ["tabworld"], "C18": ["tabmix", "treecomp"], "C08": ["tabmix", "tabrem", "tabdesp", "treecomp"], "C14": ["treecomp"], "C13": ["treeev"],
 }
@@ -219,7 +220,7 @@ PROP_GROUPS = {
     "C04": ["ev", "run"],
     "C05": ["ev", "reg", "mix"],
     "C06": ["reg", "comp"],
-    "C07": ["reg", "comp", "hier"],
+    "C07": ["reg", "comp", "hier", "app"],
     "C08": ["comp", "mix", "hier"],
     "C09": ["run", "ev", "burst", "mix"],
     "C11": ["run", "reg", "mix"],
